@@ -61,3 +61,39 @@ func VerifDescriptorIndependent() {
 	zzverif.Assert(s3.Minute == 1 && s3.Location == z2, "later_parse_unaffected_by_a_caller_editing_its_result")
 	zzverif.Cover("descriptor_independent_done")
 }
+
+// Two independent parsers (every optional-field configuration) parse their own five- or six-field spec at the same
+// time: no unsynchronised access to anything shared (race detection = violation) and each gets the schedule of ITS
+// spec - package-level tables or scratch slices never carry one caller's fields into the other's result.
+//
+//verif:harness prop=C08 name=parsers_concurrent threads=3 sched=delay preempt=2 t_preempt=3 unwind=60 race=violation witness=lenient
+func VerifParsersConcurrent() {
+	type cfg struct {
+		opts ParseOption
+		spec string
+		sec  uint64
+		min  uint64
+	}
+	cfgs := []cfg{
+		{SecondOptional | Minute | Hour | Dom | Month | Dow, "7 * * * *", 1, 1 << 7},
+		{SecondOptional | Minute | Hour | Dom | Month | Dow, "9 8 * * * *", 1 << 9, 1 << 8},
+		{Minute | Hour | Dom | Month | DowOptional, "11 * * *", 1, 1 << 11},
+		{Minute | Hour | Dom | Month | Dow, "13 * * * *", 1, 1 << 13},
+	}
+	a := cfgs[zzverif.Choose("first", len(cfgs))]
+	b := cfgs[zzverif.Choose("second", len(cfgs))]
+	// first use in the main goroutine: package initialisation (which the engine performs lazily) happens before both
+	_, _ = NewParser(Second | Minute | Hour | Dom | Month | DowOptional | Descriptor).Parse("1 2 3 4 5")
+	var sa, sb Schedule
+	var ea, eb error
+	done := make(chan struct{}, 2)
+	go func() { sa, ea = NewParser(a.opts).Parse(a.spec); done <- struct{}{} }()
+	go func() { sb, eb = NewParser(b.opts).Parse(b.spec); done <- struct{}{} }()
+	<-done
+	<-done
+	zzverif.Assert(ea == nil && eb == nil, "both_specs_accepted")
+	x, y := sa.(*SpecSchedule), sb.(*SpecSchedule)
+	zzverif.Assert(x.Second == a.sec && x.Minute == a.min, "first_parser_gets_its_own_fields")
+	zzverif.Assert(y.Second == b.sec && y.Minute == b.min, "second_parser_gets_its_own_fields")
+	zzverif.Cover("parsers_concurrent_done")
+}
